@@ -770,10 +770,26 @@ fn main() {
     let repo = arg(&args, "--repo").unwrap_or("/repo".into());
     let mut r = Rng::new(seed ^ 0x5151);
     let mut line = 0usize;
-    let corpus: Vec<(Value, Value, u32)> = corpus_programs(&repo)
+    let use_corpus = arg_u64(&args, "--corpus", 0) != 0;
+    let heavy = arg_u64(&args, "--heavy", 0) != 0;
+    let corpus: Vec<(Value, Value, u32)> = if !use_corpus { vec![] } else { corpus_programs(&repo)
         .into_iter()
         .filter_map(|(p, a, f)| Some((sexp(&p)?, sexp(&a)?, f)))
-        .collect();
+        .filter(|(p, e, f)| {
+            // quick tier: leave out corpus programs that take very many machine steps (probe their cost)
+            if heavy {
+                return true;
+            }
+            let mut a = Allocator::new();
+            let pn = json_tree(&mut a, p).unwrap();
+            let en = json_tree(&mut a, e).unwrap();
+            let d = ChiaDialect::new(flags(*f));
+            match catch(|| run_program(&mut a, &d, pn, en, 0)) {
+                Ok(Ok(Reduction(c, _))) => c < 300_000 || tree_size(p) < 25,
+                _ => true,
+            }
+        })
+        .collect() };
     let restrict = [0x0002u32, 0x0001, 0x0200, 0x0010, 0x0040, 0x0004];
 
     for case in 0..n {
